@@ -37,15 +37,16 @@ def field_meta(ch, key, sp):
     if ch == 's':
         return [None, 'Debug = true', 'Debug(ignore = false)'][sp % 3]
     if ch == 'r':
-        return ['Debug = %s' % key, 'Debug(name = %s)' % key, 'Debug(name(%s))' % key, 'Debug(rename = "%s")' % key, 'Debug(rename(%s))' % key][sp % 5]
+        return ['Debug = %s' % key, 'Debug(name = %s)' % key, 'Debug(name(%s))' % key, 'Debug(rename = "%s")' % key, 'Debug(rename(%s))' % key,
+                'Debug(name = %s, ignore = false)' % key, 'Debug(ignore(false), rename(%s))' % key][sp % 7]
     if ch == 'i':
         return ['Debug = false', 'Debug(ignore)', 'Debug(ignore = true)', 'Debug(ignore(true))'][sp % 4]
     if ch == 'm':
-        return ['Debug(method(fmt_m))', 'Debug(method = "fmt_m")', 'Debug(method(crate::sup::fmt_m))'][sp % 3]
+        return ['Debug(method(fmt_m))', 'Debug(method = "fmt_m")', 'Debug(method(crate::sup::fmt_m))', 'Debug(ignore = false, method(fmt_m))', 'Debug(method(fmt_m), ignore(false))'][sp % 5]
     if ch == 'x':
-        return ['Debug(name = %s, method(fmt_m))' % key, 'Debug(rename(%s), method = "fmt_m")' % key][sp % 2]
+        return ['Debug(name = %s, method(fmt_m))' % key, 'Debug(rename(%s), method = "fmt_m")' % key, 'Debug(name = %s, ignore = false, method(fmt_m))' % key][sp % 3]
     if ch == 'y':
-        return ['Debug(method(fmt_m), name = %s)' % key, 'Debug(method = "fmt_m", rename(%s))' % key][sp % 2]
+        return ['Debug(method(fmt_m), name = %s)' % key, 'Debug(method = "fmt_m", rename(%s))' % key, 'Debug(ignore = false, method(fmt_m), name = %s)' % key][sp % 3]
     if ch == 'z':
         return ['Debug(ignore, method(fmt_poison))', 'Debug(method(fmt_poison), ignore = true)'][sp % 2]
     raise ValueError(ch)
